@@ -41,6 +41,61 @@ def direct_final(session, final):
     return None
 
 
+def error_fanout_session(session):
+    """the peer ends a run with a server-fatal error or a step-fatal error without run id (both fanned out to every waiter)"""
+    return "svfatal" in session or "stepfatal_norun" in session
+
+
+def crash_text(obs):
+    """`(crash "stderr tail")`: the driver process died while it was running this case - a panic inside the client (in a
+    goroutine nobody can recover from) kills the process; the Execute calls of the session never return."""
+    if obs is not None and obs.startswith("(crash"):
+        return "the process died while the real client was running this session (panic in a client goroutine?): " + obs[7:-1][-500:]
+    return None
+
+
+def judge_explore(xl, xr, res, prop_words):
+    """Search on the implementation (explore mode): every case line of xl with its summary xr[id].  A trial that ends with
+    an Execute / Close not returned while nothing can move, an Execute that returned twice, a result that is not the one the
+    peer sent for that call, or the death of the process is a violation with the scheduling choices as replay."""
+    trials = 0
+    kinds = {"healthy": 0, "error-fanout": 0, "run-id-reuse": 0}
+    for line in xl:
+        e = ae.split_top(line)
+        cid = e[1]
+        session = ae.split_top(e[3])[0]
+        runs = re.findall(r'\(call ("[^"]*")', session)
+        kinds["error-fanout" if error_fanout_session(session) else "run-id-reuse" if len(set(runs)) < len(runs) else "healthy"] += 1
+        out = xr.get(cid)
+        body = ae.split_top(out)[2] if out is not None and out.startswith("(obs") else None
+        cr = crash_text(body)
+        if cr:
+            res["violations"].append(("atpexplore", line, body[:600], "-", cr + " - replay = the session and the exploration strategy"))
+            continue
+        if out is None or not out.startswith("(xsum"):
+            res["disagreements"].append(("atpexplore", line, out or "(missing)", "-"))
+            continue
+        trials += int(ae.split_top(ae.field(out, "trials"))[1])
+        stuck = int(ae.split_top(ae.field(out, "stuck"))[1])
+        double = int(ae.split_top(ae.field(out, "double"))[1])
+        wf = ae.field(out, "wrong")
+        wrong = int(ae.split_top(wf)[1]) if wf else 0
+        first = ae.field(out, "first")
+        if stuck or double or wrong:
+            xobs = ae.split_top(first)[1]
+            choices = ae.field(xobs, "choices")
+            final = ae.field(xobs, "final")
+            case = "(case %s atpexplore (%s %s))" % (cid, session, choices)
+            wtxt = ae.field(xobs, "wrong")
+            why = direct_final(session, final) or ("an Execute returned twice" if double else None) or \
+                (ae.split_top(wtxt)[2].strip('"') if wtxt else "a call got a result that is not its own")
+            res["violations"].append(("atpexplore", case, final, "-", why + " - found by schedule exploration of the real client "
+                                      "(%s); replay = the list of scheduling choices" % prop_words))
+        elif first is not None:
+            res["disagreements"].append(("atpexplore", line, first, "-"))
+    return trials, kinds
+
+
 def switches(steps):
     roles = re.findall(r"\(st (\S+) ", steps)
     roles = [r for r in roles if r != "peer"]
@@ -59,7 +114,9 @@ def engine_c06(prop, tier, seed, work, known):
     n_enum, n_sampled = 0, 0
     for cid, session, ss in scheds:
         for k, (steps, final, complete, flightok, lostbuf) in enumerate(ss):
-            if lostbuf >= 0:
+            if lostbuf >= 0 and (not error_fanout_session(session) or "(frag 0)" not in session):
+                # (an error fan-out may end the loop while answers for the failed runs are in its read-ahead: those sessions
+                # use the unfragmented transport, where the model's whole-message read-ahead is exact)
                 raise check.ProofBroken("model", "a read loop of a model schedule of a HEALTHY session ends with a non-empty read-ahead "
                                         "buffer (nothing can be in flight when no entry is pending): case %s" % cid)
             if not flightok:
@@ -85,6 +142,7 @@ def engine_c06(prop, tier, seed, work, known):
     obs = ae.replay(items, os.path.join(work, "replay"))
     distinct = set()
     nontrivial = 0
+    n_err = 0
     steps_hist = {}
     for i, session, steps in items:
         o = obs[i]
@@ -98,10 +156,14 @@ def engine_c06(prop, tier, seed, work, known):
         steps_hist[n // 10 * 10] = steps_hist.get(n // 10 * 10, 0) + 1
         why = direct_final(session, o)
         dv = ae.diverged(o)
-        if why:
+        n_err += error_fanout_session(session)
+        if crash_text(o):
+            res["violations"].append(("atpclient", case, o[:600], expected[i], crash_text(o) + " - schedule forced gate by gate on the real client"))
+        elif why:
             res["violations"].append(("atpclient", case, o, expected[i], why + " - schedule forced gate by gate on the real client"))
-        elif dv and dv["stuck"]:
-            # the correspondence broke AND the continuation of that very run on the real client hangs: a concrete failing input
+        elif dv and (dv["stuck"] or (dv["final"] and direct_final(session, dv["final"]))):
+            # the correspondence broke AND the continuation of that very run on the real client violates the property (an
+            # Execute / Close that never returns, goroutines left blocked after Close): a concrete failing input
             res["violations"].append(("atpclient", case, o, expected[i],
                                       ae.diverged_text(dv, direct_final(session, dv["final"]) or "an Execute or Close that never returned")))
         elif o != expected[i]:
@@ -116,34 +178,13 @@ def engine_c06(prop, tier, seed, work, known):
     xcases = os.path.join(work, "c06x.cases")
     xl = ae.gen_cases("c06x", tier, seed, xcases)
     xr = ae.explore(xl, os.path.join(work, "explore"))
-    trials = 0
-    for line in xl:
-        e = ae.split_top(line)
-        cid = e[1]
-        session = ae.split_top(e[3])[0]
-        out = xr.get(cid)
-        if out is None or not out.startswith("(xsum"):
-            res["disagreements"].append(("atpexplore", line, out or "(missing)", "-"))
-            continue
-        trials += int(ae.split_top(ae.field(out, "trials"))[1])
-        stuck = int(ae.split_top(ae.field(out, "stuck"))[1])
-        double = int(ae.split_top(ae.field(out, "double"))[1])
-        first = ae.field(out, "first")
-        if stuck or double:
-            xobs = ae.split_top(first)[1]
-            choices = ae.field(xobs, "choices")
-            final = ae.field(xobs, "final")
-            case = "(case %s atpexplore (%s %s))" % (cid, session, choices)
-            why = direct_final(session, final) or "an Execute returned twice"
-            res["violations"].append(("atpexplore", case, final, "-", why + " - found by schedule exploration of the real client "
-                                      "(healthy scripted peer); replay = the list of scheduling choices"))
-        elif first is not None:
-            res["disagreements"].append(("atpexplore", line, first, "-"))
+    trials, xkinds = judge_explore(xl, xr, res, "scripted peer that answers every accepted work start once")
     res["evaluations"] += trials
     res["stats"] = {"gates": t_gates, "model_schedules_replayed": len(items), "from_exhaustive_enumeration": n_enum,
                     "sampled": n_sampled, "distinct": len(distinct), "distinct_nontrivial": nontrivial,
                     "steps_per_schedule_histogram": dict(sorted(steps_hist.items())),
-                    "explore_sessions": len(xl), "explore_trials": trials,
+                    "explore_sessions": len(xl), "explore_trials": trials, "explore_sessions_by_kind": xkinds,
+                    "model_schedules_of_error_fanout_sessions": n_err,
                     "rule": "a schedule is non-trivial when the client goroutines switch at least twice inside the session"}
     return res
 
@@ -192,9 +233,18 @@ C06 = {
             "(coq/ATP/Client.v, extracted) produces maximal schedules - ALL of them for the five fixed small sessions up to a count, "
             "one per random choice list for the generated ones - and the driver forces each on the real client gate by gate; distinct "
             "by (session, schedule); non-trivial = at least two switches between client goroutines. Search on the implementation: "
-            "delay-bounded (every step delayed singly; pairs: all for small sessions, sampled beyond) and seeded random scheduling.",
+            "delay-bounded (every step delayed singly; pairs: all for small sessions, sampled beyond) and seeded random scheduling. "
+            "ERROR FAN-OUTS: sessions in which the peer ends a run with a server-fatal error or with a step-fatal error without run id "
+            "(unfragmented transport) are replayed against the model and explored. RE-USED RUN IDS (two Execute calls with the same "
+            "id, overlapping or one after the other, with / without signal channels; the peer answers every ACCEPTED work start once) "
+            "are outside the model's good sessions: explored on the implementation only and judged by the property's predicate - "
+            "every Execute returns exactly once, Close returns, nothing left blocked; where all calls of an id come from one goroutine "
+            "the k-th is an ordinary call and gets the k-th answer. A death of the driver process while it runs a session (panic in a "
+            "client goroutine) is a violation.",
     "assumptions": ["the peer is healthy: it answers every accepted work start with exactly one terminal message after the signals/notices "
-                    "of that run, sends nothing unsolicited, never fails; run ids of one client are distinct",
+                    "of that run, sends nothing unsolicited, never fails - or ends a run with a server-fatal / run-less step-fatal error message, which "
+                    "answers every pending run; for the theorems and the model replays the run ids of one client are distinct (re-used ids "
+                    "are checked on the implementation by the property's predicate alone)",
                     "the caller consumes every signal the step emits (consumer_reads); Close is called once every Execute has "
                     "sent its work-start message (an Execute started after Close is client misuse: the server ignores it)",
                     "sync.Mutex, sync.Cond, sync.WaitGroup, channels and select behave as documented; any interleaving of gated steps "
